@@ -641,8 +641,15 @@ impl<'tera> VirtualMachine<'tera> {
                     state.blocks.push((block_name, block_lineage, 0));
                     let old_block_name = state.current_block_name.replace(block_name);
                     let res = if state.capture_block == Some(block_name.as_str()) {
+                        // The block might be inside a filter section/set block: its output must
+                        // end up in our buffer, not only in the enclosing capture
                         let mut buf = Vec::with_capacity(256);
+                        let outer_captures = std::mem::take(&mut state.capture_buffers);
                         let r = self.interpret(state, &mut buf);
+                        state.capture_buffers = outer_captures;
+                        if let Some(captured) = state.capture_buffers.last_mut() {
+                            captured.extend_from_slice(&buf);
+                        }
                         state.block_buffer = buf;
                         r
                     } else {
